@@ -1,6 +1,6 @@
 (* C13 - a MultiChain is its chains, sharing identical tasks.  Statements only. *)
 From Coq Require Import String Ascii List Bool Arith ZArith.
-From TC Require Import PyStr Value Dict Repr Param Config Key Chain World Eval History EvalProofs HistoryProofs MultiProofs Sharing SharingProofs.
+From TC Require Import PyStr Value Dict Repr Param Config Key Chain World Eval History EvalProofs HistoryProofs MultiProofs Sharing SharingProofs RegRefineProofs.
 Import ListNotations.
 
 (* a MultiChain is the fold of chain constructions over one set of task objects and one registry *)
@@ -111,3 +111,19 @@ Example C13_share_example :
   share [(lit "d0", lit "src", lit "h1"); (lit "d0", lit "dst", lit "h2"); (lit "d1", lit "src", lit "h1");
          (lit "d0", lit "src", lit "h1"); (lit "d0", lit "dst", lit "h3")] = [0; 1; 2; 0; 3].
 Proof. vm_compute. reflexivity. Qed.
+
+(* Chain.register of the chain model is an instance of that registry (keyed by slug and hash; the model of `build` has
+   one data directory): for any sequence of registrations, within a chain or across the members of a MultiChain, two of
+   them get one object exactly when slug and hash agree - C13_shared_iff_same_computation for whole histories *)
+Theorem C13_registrations_share_iff_same_computation : forall st rs st' ids i j si ki ni oi sj kj nj oj a b,
+  RegInv (str * str) (abs_reg st) -> registers st rs = (st', ids) ->
+  nth_error rs i = Some (si, ki, ni, oi) -> nth_error rs j = Some (sj, kj, nj, oj) ->
+  nth_error ids i = Some a -> nth_error ids j = Some b ->
+  (a = b <-> si = sj /\ ki = kj).
+Proof. exact registers_shared_iff. Qed.
+Print Assumptions C13_registrations_share_iff_same_computation.
+
+Theorem C13_fresh_registry_satisfies_the_invariant :
+  RegInv (str * str) (abs_reg {| ps_objs := []; ps_registry := []; ps_new := [] |}).
+Proof. exact fresh_registry_ok. Qed.
+Print Assumptions C13_fresh_registry_satisfies_the_invariant.
